@@ -163,21 +163,52 @@ func runC06(p *core.Prog, r *core.Result) {
 		"(*dawn.Project).loadIndex": "runs before any loader goroutine is started, from (*Project).load only",
 	}})
 	r.Floor("R6.2", n, 2, "accesses to Project.modules")
-	li := p.Locks(loadModule)
 	var lookups []*ssa.Lookup
 	var updates []*ssa.MapUpdate
-	core.Instrs(loadModule, func(in ssa.Instruction) {
-		switch x := in.(type) {
-		case *ssa.Lookup:
-			if core.LoadOfField(x.X, pkgRoot, "Project", "modules") && x.CommaOk {
-				lookups = append(lookups, x)
+	registryAccesses := func(fn *ssa.Function) {
+		lookups, updates = nil, nil
+		core.Instrs(fn, func(in ssa.Instruction) {
+			switch x := in.(type) {
+			case *ssa.Lookup:
+				if core.LoadOfField(x.X, pkgRoot, "Project", "modules") && x.CommaOk {
+					lookups = append(lookups, x)
+				}
+			case *ssa.MapUpdate:
+				if core.LoadOfField(x.Map, pkgRoot, "Project", "modules") {
+					updates = append(updates, x)
+				}
 			}
-		case *ssa.MapUpdate:
-			if core.LoadOfField(x.Map, pkgRoot, "Project", "modules") {
-				updates = append(updates, x)
+		})
+	}
+	// the check-or-insert lives in loadModule or in a helper that only loadModule calls
+	regFn := loadModule
+	var regCall *ssa.Call
+	registryAccesses(regFn)
+	if len(updates) == 0 {
+		for _, c := range core.Calls(loadModule) {
+			call, isCall := c.(*ssa.Call)
+			h := core.Callee(c)
+			if !isCall || h == nil || h.Pkg != loadModule.Pkg || h.Blocks == nil {
+				continue
+			}
+			registryAccesses(h)
+			if len(updates) > 0 {
+				only := len(p.FuncValueUses(h)) == 0
+				for _, cc := range p.StaticCallers(h) {
+					if cc.Parent() != loadModule {
+						only = false
+					}
+				}
+				r.Check(only, "R6.2", fname(h)+"#only-from-loadModule", p.InstrPos(call), "the check-or-insert helper is called by loadModule only", "the check-or-insert helper is also called from elsewhere: a module can be registered by a caller that does not load it")
+				regFn, regCall = h, call
+				break
 			}
 		}
-	})
+		if regFn == loadModule {
+			registryAccesses(regFn)
+		}
+	}
+	li := p.Locks(regFn)
 	r.Floor("R6.2", len(updates), 1, "inserts into Project.modules in loadModule")
 	for _, mu := range updates {
 		ok := false
@@ -206,7 +237,7 @@ func runC06(p *core.Prog, r *core.Result) {
 	}
 	// other inserts anywhere
 	for _, fn := range p.ModuleFuncs() {
-		if fn == loadModule {
+		if fn == regFn {
 			continue
 		}
 		core.Instrs(fn, func(in ssa.Instruction) {
@@ -343,8 +374,36 @@ func runC06(p *core.Prog, r *core.Result) {
 			ok = false
 			recv := p.ResolvePhiAt(c.Common().Args[0], ci)
 			for _, mu := range updates {
-				if p.DominatesModuloFacts(mu, ci) && mu.Value == recv {
+				if regCall == nil && p.DominatesModuloFacts(mu, ci) && mu.Value == recv {
 					ok = true
+				}
+			}
+			// through the check-or-insert helper: the receiver is a result of the helper, and every return of the
+			// helper that does not hand out the module it has just inserted is excluded by what is known at the call
+			if ex, isEx := recv.(*ssa.Extract); isEx && regCall != nil && ex.Tuple == ssa.Value(regCall) {
+				ok = true
+				for _, ret := range core.ReturnsOf(regFn) {
+					vals := core.RetVals(ret)
+					inserting := false
+					for _, mu := range updates {
+						if ex.Index < len(vals) && vals[ex.Index] == mu.Value && core.Dominates(mu, ret) {
+							inserting = true
+						}
+					}
+					if inserting {
+						continue
+					}
+					excluded := false
+					for j, v := range vals {
+						bv, isConst := core.ConstBool(v)
+						res := extractOf(regCall, j)
+						if isConst && res != nil && holds(p, ci, !bv, func(x ssa.Value) bool { return x == res }) {
+							excluded = true
+						}
+					}
+					if !excluded {
+						ok = false
+					}
 				}
 			}
 		}
